@@ -91,19 +91,27 @@ func (o *once) Read(p []byte) (int, error) {
 }
 
 type spec struct {
+	early   bool     // client side: the handler returns at once, so the server half-closes first
 	side    string   // "client" | "server"
 	actors  []string // S1 S2 CS CL CA NX (client) ; S1 S2 ERR (server)
 	stallAt int
 }
 
 func (s spec) String() string {
-	return fmt.Sprintf("%s actors=%s stall=%d", s.side, strings.Join(s.actors, ","), s.stallAt)
+	e := ""
+	if s.early {
+		e = " handler-returns-first"
+	}
+	return fmt.Sprintf("%s actors=%s stall=%d%s", s.side, strings.Join(s.actors, ","), s.stallAt, e)
 }
 
 func scenario(cfg wl.Config, sp spec) *mc.Scenario {
 	name := fmt.Sprintf("wire[%s | %s]", cfg, sp)
 	body := func() {
 		handler := func(env *wl.Env, stream drpc.Stream, rpc string) error {
+			if sp.early && rpc == "/w" {
+				return nil // the server half-closes before the client does anything
+			}
 			if sp.side == "client" || rpc != "/w" {
 				// drain and answer nothing: the subject is what the client writes
 				for {
@@ -186,7 +194,7 @@ func scenario(cfg wl.Config, sp spec) *mc.Scenario {
 			env.Cli.Release()
 			sched.Quiesce()
 		}
-		env.Teardown()
+		env.TeardownExplored()
 		sched.Observef("cli=%d writes srv=%d writes", len(env.Cli.Log), len(env.Srv.Log))
 	}
 	check := func(e *sched.Exec) string {
@@ -239,6 +247,17 @@ func plans(tier string) []mc.Plan {
 					bounds = []int{0, 1, 2}
 				}
 				ps = append(ps, mc.Plan{Scen: scenario(cfg, spec{side: "client", actors: c, stallAt: -1}), Bounds: bounds, Split: len(bounds) > 2})
+			}
+		}
+		// the remote half-close arrives first, so the local half-close/close is what terminates the
+		// stream; the next RPC is queued ahead of or behind the closing actor
+		if cfg.SplitSize == 2 || tier == "thorough" {
+			for i, c := range [][]string{{"S1", "NX", "CS"}, {"S1", "CS", "NX"}, {"S1", "NX", "CL"}, {"S1", "S2", "NX", "CS"}, {"NX", "CS"}, {"CS", "CA", "NX"}} {
+				b2 := []int{0, 1}
+				if i == 0 && tier == "thorough" {
+					b2 = []int{0, 1, 2}
+				}
+				ps = append(ps, mc.Plan{Scen: scenario(cfg, spec{side: "client", actors: c, stallAt: -1, early: true}), Bounds: b2, Split: len(b2) > 2})
 			}
 		}
 		if tier == "thorough" {
